@@ -577,7 +577,11 @@ func ruleSharedFields(c *Check, rule string) {
 				} else if _, isDefer := e.Site.(*ssa.Defer); isDefer {
 					at = map[string]bool{}
 				} else {
-					at = heldAt[e.Site]
+					h, known := heldAt[e.Site]
+					if !known {
+						continue // the caller has not been analysed yet (its own entry set is still unconstrained)
+					}
+					at = h
 				}
 				n := inter(entry[cal], at)
 				if !same(entry[cal], n) {
